@@ -948,25 +948,36 @@ theorem endPos_ge : ∀ (its : List Item) (s : Bytes) (p : Nat), p ≤ endPos it
     · exact Nat.le_trans (by omega) (ih s _)
     · exact ih s p
 
-/-- starting later never ends earlier, when no character is wider than two bytes -/
-theorem endPos_mono (s : Bytes) (hw : NoWide s) : ∀ (its : List Item) (p q : Nat), p ≤ q →
+/-- starting later never ends earlier, when no character is wider than two bytes or when all items are
+    single bytes -/
+theorem endPos_mono (s : Bytes) : ∀ (its : List Item), (NoWide s ∨ FixedWidth its) → ∀ (p q : Nat), p ≤ q →
     endPos its s p ≤ endPos its s q := by
   intro its
   induction its with
-  | nil => intro p q h; exact h
+  | nil => intro _ p q h; exact h
   | cons it its ih =>
-    intro p q h
-    have step : p + (decode1 (s.drop p)).2 ≤ q + (decode1 (s.drop q)).2 := by
+    intro hw p q h
+    have hw' : NoWide s ∨ FixedWidth its := hw.imp id (fun hf x hx => hf x (by simp [hx]))
+    have step : NoWide s → p + (decode1 (s.drop p)).2 ≤ q + (decode1 (s.drop q)).2 := by
+      intro hw
       have h1 := hw p
       have h2 := decode1_width_pos (s.drop q)
       by_cases e : p = q
       · subst e; exact Nat.le_refl _
       · omega
-    cases it <;> simp only [endPos]
-    · exact ih _ _ (by omega)
-    · exact ih _ _ step
-    · exact ih _ _ step
-    · exact ih _ _ h
+    cases it with
+    | lit b => simp only [endPos]; exact ih hw' _ _ (by omega)
+    | star => simp only [endPos]; exact ih hw' _ _ h
+    | any =>
+      simp only [endPos]
+      rcases hw with hw | hf
+      · exact ih (Or.inl hw) _ _ (step hw)
+      · have := hf .any (by simp); simp at this
+    | cls neg rs =>
+      simp only [endPos]
+      rcases hw with hw | hf
+      · exact ih (Or.inl hw) _ _ (step hw)
+      · have := hf (.cls neg rs) (by simp); simp at this
 
 /-! ### `*` -/
 
@@ -1470,7 +1481,7 @@ theorem goMatchF_sound (f : Nat) : ∀ (pattern name : Bytes), goMatchF f patter
               exact ⟨pre, suf, hname, hslash, hm⟩
 
 theorem goMatchF_complete (f : Nat) : ∀ (pattern name : Bytes) (ast : Pat), pattern.length ≤ f →
-    Parses pattern ast → Matches ast name → slash ∉ name → NoWide name →
+    Parses pattern ast → Matches ast name → slash ∉ name → (NoWide name ∨ FixedWidth ast) →
     goMatchF f pattern name = .matched true := by
   induction f with
   | zero =>
@@ -1536,10 +1547,15 @@ theorem goMatchF_complete (f : Nat) : ∀ (pattern name : Bytes) (ast : Pat), pa
         rw [hsuf'] at hmi'
         have htj := matchItems_endPos items name _ tj hmi
         have ht := matchItems_endPos items name _ t hmi'
-        have hmono := endPos_mono name hnw items _ _ hlen
+        have hfw_items : NoWide name ∨ FixedWidth items :=
+          hnw.imp id (fun hf x hx => hf x (by simp [hx]))
+        have hmono := endPos_mono name items hfw_items _ _ hlen
         have ht_sl : slash ∉ t := by
           rw [ht]; exact fun h => hsl (List.mem_of_mem_drop h)
-        have ht_nw : NoWide t := by rw [ht]; exact noWide_drop _ _ hnw
+        have ht_nw : NoWide t ∨ FixedWidth astRest := by
+          rcases hnw with hnw | hf
+          · left; rw [ht]; exact noWide_drop _ _ hnw
+          · right; exact fun x hx => hf x (by simp [hx])
         refine ih rest t astRest (by simp only [List.length_cons] at hf hlt; omega) hpr ?_ ht_sl ht_nw
         rcases hrest with hrn | hrh
         · subst hrn
@@ -1761,5 +1777,86 @@ theorem goMatch_noMeta (pat name : Bytes) (h : hasMeta pat = false) :
           have := congrArg List.length ht
           simp at this
         simp [this]
+
+/-! ### concatenation, and names with `/` -/
+
+theorem parses_append {a b : Bytes} {x y : Pat} (ha : Parses a x) (hb : Parses b y) : Parses (a ++ b) (x ++ y) := by
+  induction ha with
+  | nil => exact hb
+  | star _ ih => exact Parses.star ih
+  | any _ ih => exact Parses.any ih
+  | lit c h1 h2 h3 h4 _ ih => exact Parses.lit c h1 h2 h3 h4 ih
+  | esc c _ ih => exact Parses.esc c ih
+  | @cls s rest rs ast h94 hbody hrs _ ih =>
+    obtain ⟨body, hs, hbne, hbh, hbl, _⟩ := hbody.scan
+    have e : (91 :: s) ++ b = 91 :: (body ++ (rest ++ b)) := by rw [hs]; simp
+    rw [e]
+    refine Parses.cls ?_ (hbl (rest ++ b)) hrs ih
+    rw [head?_append_ne hbne, hbh]; exact h94
+  | @ncls s rest rs ast hbody hrs _ ih =>
+    obtain ⟨body, hs, hbne, hbh, hbl, _⟩ := hbody.scan
+    have e : (91 :: 94 :: s) ++ b = 91 :: 94 :: (body ++ (rest ++ b)) := by rw [hs]; simp
+    rw [e]
+    exact Parses.ncls (hbl (rest ++ b)) hrs ih
+
+/-- a pattern none of whose items can match `/` matches no name with a `/` -/
+theorem matches_no_slash : ∀ (ast : Pat) (name : Bytes), Matches ast name →
+    (∀ it ∈ ast, it.admitsSlash = false) → slash ∉ name := by
+  intro ast
+  induction ast with
+  | nil => intro name h _; rw [show name = [] from h]; simp
+  | cons it ast ih =>
+    intro name h hns
+    have hns' : ∀ it ∈ ast, it.admitsSlash = false := fun x hx => hns x (by simp [hx])
+    have hit := hns it (by simp)
+    -- the bytes of one character that does not start with `/` contain no `/`
+    have runeNoSlash : ∀ (s : Bytes), s ≠ [] → s.head? ≠ some slash → slash ∉ s.drop (decode1 s).2 →
+        slash ∉ s := by
+      intro s hne hh hrest hmem
+      have hsplit := List.take_append_drop (decode1 s).2 s
+      rw [← hsplit] at hmem
+      rcases List.mem_append.1 hmem with hm | hm
+      · by_cases h1 : (decode1 s).2 = 1
+        · cases s with
+          | nil => exact hne rfl
+          | cons c tl =>
+            rw [h1] at hm
+            simp only [List.take_succ_cons, List.take_zero, List.mem_singleton] at hm
+            exact hh (by simp [hm])
+        · have := decode1_wide_bytes s (by have := decode1_width_pos s; omega) slash hm
+          simp [slash] at this
+      · exact hrest hm
+    cases it with
+    | lit b =>
+      obtain ⟨rest, rfl, hm⟩ := h
+      have hb : b ≠ slash := by simpa [Item.admitsSlash] using hit
+      intro hmem
+      simp only [List.mem_cons] at hmem
+      rcases hmem with e | e
+      · exact hb e.symm
+      · exact ih rest hm hns' e
+    | any =>
+      obtain ⟨h1, h2, hm⟩ := h
+      exact runeNoSlash name h1 h2 (ih _ hm hns')
+    | cls neg rs =>
+      obtain ⟨h1, h2, hm⟩ := h
+      refine runeNoSlash name h1 ?_ (ih _ hm hns')
+      intro hh
+      cases name with
+      | nil => exact h1 rfl
+      | cons c tl =>
+        simp only [List.head?_cons, Option.some.injEq] at hh
+        subst hh
+        have hd : decode1 (slash :: tl) = (47, 1) := decode1_ascii slash tl (by decide)
+        rw [hd] at h2
+        simp only [Item.admitsSlash] at hit
+        have : inRanges 47 rs = neg := by simpa using hit
+        exact h2 this
+    | star =>
+      obtain ⟨pre, suf, rfl, hpre, hm⟩ := h
+      intro hmem
+      rcases List.mem_append.1 hmem with e | e
+      · exact hpre e
+      · exact ih suf hm hns' e
 
 end Rare.C06.Glob
